@@ -17,7 +17,8 @@
     builtin_object.go:58-66, 117-334  propertyIsEnumerable, getOwnPropertyDescriptor, defineProperty,
                          defineProperties, create, isExtensible, preventExtensions, isSealed, seal,
                          isFrozen, freeze, keys, getOwnPropertyNames
-    cmpl_evaluate_statement.go:171-235  for-in (walks the prototype chain, one enumerate per object)
+    cmpl_evaluate_statement.go:171-240  for-in (walks the prototype chain, one enumerate per object,
+                         shadowed names skipped since fix cb72f5e)
     type_reference.go:44-58  propertyReference.putValue / delete (strict flag = throw)
 
   Universe.  Values are codes (`Val := Nat`; the harness maps 0 ↦ undefined, 1 ↦ +0, 2 ↦ −0,
@@ -494,18 +495,27 @@ def fromPropertyDescriptor (p : MProp) : DescObs :=
   | .nil => if p.isDataDescriptor then .data 0 p.writable p.enumerable p.configurable
             else .weird p.enumerable p.configurable
 
-/-- object_class.go:22 objectEnumerate -/
+/-- object_class.go:22 objectEnumerate (since fix 03940a1 it walks a snapshot of propertyOrder and skips
+    names deleted meanwhile – the callbacks modelled here never delete) -/
 def enumerate (o : MObj) (all : Bool) : List Name :=
   (o.props.filter (fun kp => all || kp.2.enumerable)).map (·.1)
 
-/-- cmpl_evaluate_statement.go:190: one enumerate per object on the chain, no shadow check -/
-def forIn (h : MHeap) : Nat → Option Addr → List Name
-  | 0, _ => []
-  | _ + 1, none => []
-  | f + 1, some a =>
+/-- cmpl_evaluate_statement.go:194-200 (as of fix cb72f5e): `shadow.getOwnProperty(name) != nil` for some
+    object `shadow` strictly before `obj` on the chain (`prev` = their addresses, in chain order) -/
+def shadowedBy (h : MHeap) (prev : List Addr) (n : Name) : Bool :=
+  prev.any (fun b => match h[b]? with
+    | some o => (alookup n o.props).isSome
+    | none => false)
+
+/-- cmpl_evaluate_statement.go:188-235: one enumerate(false) per object on the chain; a name is
+    skipped when an earlier object of the chain has an own property of that name -/
+def forIn (h : MHeap) : Nat → Option Addr → List Addr → List Name
+  | 0, _, _ => []
+  | _ + 1, none, _ => []
+  | f + 1, some a, prev =>
     match h[a]? with
     | none => []
-    | some o => enumerate o false ++ forIn h f o.proto
+    | some o => (enumerate o false).filter (fun n => !shadowedBy h prev n) ++ forIn h f o.proto (prev ++ [a])
 
 def observeName (h : MHeap) (a : Addr) (o : MObj) (n : Name) : NameObs :=
   let own := alookup n o.props
@@ -521,7 +531,7 @@ def observeObj (h : MHeap) (a : Addr) (o : MObj) : ObjObs :=
     isFrozen := if o.ext then false else o.props.all (fun kp => !(kp.2.configurable || kp.2.writable))
     keys := enumerate o false
     names := enumerate o true
-    forin := forIn h (fuel h) (some a)
+    forin := forIn h (fuel h) (some a) []
     per := obsNames.map (observeName h a o) }
 
 def observeFrom (h : MHeap) : Nat → List MObj → List ObjObs
